@@ -134,6 +134,7 @@ structure Algs where
   enabled : List Nat := []          -- algorithm ids
   curves : List Nat := []           -- curve ids
   minSize : List (Nat × Nat) := []  -- (algorithm id, minimum key size) given explicitly
+  level : Nat := 0                  -- the StateFormatLevel the listed items need
   deriving Repr
 
 def algByName (n : String) : Option (Nat × String × Bool × Nat × Bool) := algProps.find? (·.2.1 == n)
@@ -142,24 +143,38 @@ def curveByName (n : String) : Option (Nat × String × Nat × Bool) := eccProps
 def readDec (s : List Char) : Option Nat :=
   match readDigits 10 s 0 false with | some (v, []) => some v | _ => none
 
+/-- `<alg>-min-size=<n>`: every size of the algorithm that the build has, is at least n and is allowed at this maximum raises the
+    StateFormatLevel to what it needs (an algorithm listed without a minimum size raises nothing) -/
+def minSizeLevel (id v maxSfl : Nat) : Nat :=
+  let sizes : List (Nat × Nat) :=
+    if id = 1 then rsaSizes else (symSizes.filter (·.1 == id)).map (fun (_, b, s) => (b, s))
+  ((sizes.filter (fun (b, s) => decide (b ≥ v) && decide (s ≤ maxSfl))).map (·.2)).foldl max (if id = 35 then 1 else 0)
+
+def curveSfl (id : Nat) : Nat := ((eccSfl.find? (·.1 == id)).map (·.2)).getD 1
+/-- curves of a shortcut that need more than the allowed level are skipped; a curve named alone is refused (`algToken`) -/
+def addCurves (a : Algs) (ids : List Nat) (maxSfl : Nat) : Algs :=
+  let ok := ids.filter (fun id => decide (curveSfl id ≤ maxSfl))
+  { a with curves := ok ++ a.curves, level := (ok.map curveSfl).foldl max a.level }
+
 /-- one token of the Algorithms list -/
 def algToken (a : Algs) (tok : String) (maxSfl : Nat) : Option Algs :=
   match algByName tok with
-  | some (id, _, _, sfl, _) => if sfl ≤ maxSfl then some { a with enabled := id :: a.enabled } else none
+  | some (id, _, _, sfl, _) => if sfl ≤ maxSfl then some { a with enabled := id :: a.enabled, level := max a.level sfl } else none
   | none =>
     -- <alg>-min-size=<n> for algorithms with key sizes
     match algProps.find? (fun (_, n, _, _, ks) => ks && tok.startsWith (n ++ "-min-size=")) with
     | some (id, n, _, _, _) =>
       (match readDec (tok.toList.drop (n.length + 10)) with
-       | some v => if v ≤ 4096 then some { a with minSize := (id, v) :: a.minSize } else none
+       | some v => if v ≤ 4096 then some { a with minSize := (id, v) :: a.minSize, level := max a.level (minSizeLevel id v maxSfl) } else none
        | none => none)
     | none =>
-      if tok.startsWith "hmac-min-key-size=" then (if (readDec (tok.toList.drop 18)).isSome then some a else none) else
+      if tok.startsWith "hmac-min-key-size=" then
+        (if (readDec (tok.toList.drop 18)).isSome ∧ hmacMinKeySfl ≤ maxSfl then some { a with level := max a.level hmacMinKeySfl } else none) else
       -- curve shortcuts and single curves
-      if tok = "ecc-nist" then some { a with curves := (eccProps.filter (·.2.1.startsWith "ecc-nist-p")).map (·.1) ++ a.curves }
-      else if tok = "ecc-bn" then some { a with curves := (eccProps.filter (·.2.1.startsWith "ecc-bn-p")).map (·.1) ++ a.curves }
+      if tok = "ecc-nist" then some (addCurves a ((eccProps.filter (·.2.1.startsWith "ecc-nist-p")).map (·.1)) maxSfl)
+      else if tok = "ecc-bn" then some (addCurves a ((eccProps.filter (·.2.1.startsWith "ecc-bn-p")).map (·.1)) maxSfl)
       else match curveByName tok with
-        | some (id, _, _, _) => some { a with curves := id :: a.curves }
+        | some (id, _, _, _) => if curveSfl id ≤ maxSfl then some (addCurves a [id] maxSfl) else none
         | none => none
 
 /-- `RuntimeAlgorithmSetProfile`: all tokens known, every algorithm and curve that cannot be disabled present -/
